@@ -3,7 +3,8 @@
 
    A move is either a plain field update (ctxs, a flag, a queue) or one of the model's own flow-control
    functions taken whole (cl_add_window, cl_handle_settings, the DATA arm of readStream, one sendLck critical
-   section of sendPending with the DATA run it decides, the HEADERS write of writeRequest). `apply` interprets a
+   section of sendPending with the DATA run it decides, the HEADERS write of writeRequest, the RST_STREAM the write
+   loop writes itself when a body's reader fails, MWlReset). `apply` interprets a
    move on a state, `valid` are the premises the model guarantees where it makes the move, `mvs c ms c'` says
    that c' is c after the moves ms, each valid where it is made. Every function of the model is shown to be
    such a sequence (`D P g c c'`: the moves all satisfy P, and the send-window grants among them are g); the
@@ -173,7 +174,7 @@ Inductive move : Type :=
 | MGoAway (last : N)
 | MReqTake (id : N) | MReqAdd (tag : N) | MReqKeep (last : N) | MOpenDec | MReqClear
 | MInQPush (tag : N) | MInQPop | MQClear
-| MOutQPush (o : coutev) | MWlWrite | MOutQDrop
+| MOutQPush (o : coutev) | MWlWrite | MWlReset (id : N) | MOutQDrop
 | MWinCh
 | MRlPriv (hs : N) (hp : bytes) (hf : N) (he hr : bool) (hst : Z) (herr : option cerr) (d : hstate)
 | MRecvData (fr : sframe) (has_res : bool)
@@ -213,6 +214,7 @@ Definition apply (m : move) (c : cconn) : cconn :=
   | MQClear => ccu_outQ (ccu_inQ c []) []
   | MOutQPush o => if pushb o then cl_write_out c o else c
   | MWlWrite => match cc_outQ c with [] => c | o :: q => cl_note (ccu_outQ c q) o end
+  | MWlReset id => cl_note c (CORst id c_InternalError)
   | MOutQDrop => ccu_outQ c (tl (cc_outQ c))
   | MWinCh => ccu_winCh c false
   | MRlPriv hs hp hf he hr hst herr d =>
@@ -268,6 +270,7 @@ Definition valid (m : move) (c : cconn) : Prop :=
     exists pb, cl_pend_get (cc_pending c) id = Some pb /\ refill_cond pb = false /\
                (wr = true -> cl_can_write c = true /\ ((cs_n c pb =? 0)%Z && negb (cs_end c pb)) = false)
   | MWlWrite => cl_can_write c = true /\ cc_outQ c <> []
+  | MWlReset _ => cl_can_write c = true
   | MOutQDrop => cl_can_write c = false
   | MEnc _ => cc_encTableSeen c = cc_encTableSize c
   | MQClear => cc_closed c = true
@@ -352,7 +355,7 @@ Arguments MNetClosed {hstate}. Arguments MWriteFail {hstate}. Arguments MWlDone 
 Arguments MRlStuck {hstate}. Arguments MWlStuck {hstate}. Arguments MLastErr {hstate}. Arguments MUnacks {hstate}.
 Arguments MGoAway {hstate}. Arguments MReqTake {hstate}. Arguments MReqAdd {hstate}. Arguments MReqKeep {hstate}.
 Arguments MOpenDec {hstate}. Arguments MReqClear {hstate}. Arguments MInQPush {hstate}. Arguments MInQPop {hstate}.
-Arguments MQClear {hstate}. Arguments MOutQPush {hstate}. Arguments MWlWrite {hstate}. Arguments MOutQDrop {hstate}.
+Arguments MQClear {hstate}. Arguments MOutQPush {hstate}. Arguments MWlWrite {hstate}. Arguments MWlReset {hstate}. Arguments MOutQDrop {hstate}.
 Arguments MWinCh {hstate}. Arguments MRlPriv {hstate}. Arguments MRecvData {hstate}. Arguments MSettings {hstate}.
 Arguments MAddWindow {hstate}. Arguments MPendDel {hstate}. Arguments MPendAddDel {hstate}. Arguments MRefill {hstate}.
 Arguments MSend {hstate}. Arguments MEncSync {hstate}. Arguments MEnc {hstate}. Arguments MNextID {hstate}. Arguments MHeaders {hstate}.
@@ -388,7 +391,7 @@ Definition ev_ok {hstate} (e : cevent) (m : move hstate) : Prop :=
   | MRecvData fr _ => e = CEvRL (RFrame fr) /\ sf_kind fr = KData /\ sf_sid fr <> 0
   | MRlPriv _ _ _ _ _ _ _ _ | MGoAway _ | MRlDone | MReqKeep _ | MOpenDec => is_rl e
   | MWlDone | MQClear | MWlWrite | MOutQDrop => is_wl e
-  | MRefill _ | MSend _ _ => is_wlf e
+  | MRefill _ | MSend _ _ | MWlReset _ => is_wlf e
   | MWinCh => match e with CEvWLWin _ => True | _ => False end
   | MReqAdd _ | MInQPop | MPendAddDel _ | MEncSync | MEnc _ | MNextID | MHeaders _ _ => e = CEvWLIn
   | _ => True
@@ -522,8 +525,13 @@ Lemma send_pending_S fuel (c : cconn) id :
         let '(c1, stuck) := cl_delete_pending 1 [] c id in
         if stuck then (c1, CSPStuck)
         else
-          let c2 := cl_take_req_count (cl_cancel_stream c1 id c_InternalError) id in
-          (cl_ctx_upd c2 (pb_tag pb) (fun x => cl_ctx_resolve (ctu_finished x true) CEBody), CSPOk)
+          match cl_req_find (cc_reqQueued c1) id with
+          | None => (c1, CSPOk)
+          | Some _ =>
+            let c2 := cl_take_req_count c1 id in
+            let c3 := cl_ctx_upd c2 (pb_tag pb) (fun x => cl_ctx_resolve (ctu_finished x true) CEBody) in
+            if cl_can_write c3 then (cl_note c3 (CORst id c_InternalError), CSPOk) else (c3, CSPWriteErr)
+          end
       | Some pb' => cl_send_pending fuel (ccu_pending c (cl_pend_put (cc_pending c) pb')) id
       end
     else
@@ -557,10 +565,15 @@ Proof.
     + apply (D_step _ _ (MRefill id)); [exists pb, pb'; auto | exact W | split; reflexivity |].
       cbn [apply]. rewrite G, RF. apply IH.
     + destruct (cl_delete_pending 1 [] c id) as [c1 stuck] eqn:DP. apply delete_pending_D' in DP.
-      apply (D_any _ _ _ _ (anym_ev_ok e)).
+      apply (D_any _ _ _ _ (anym_ev_ok e)) in DP.
       destruct stuck; cbn [fst]; [exact DP|].
-      eapply D_trans0; [exact DP|]. eapply D_trans0; [apply cancel_stream_D|].
-      eapply D_trans0; [apply take_req_D|]. apply ctx_upd_D.
+      destruct (cl_req_find (cc_reqQueued c1) id) as [tg|]; cbn [fst]; [|exact DP]. cbv zeta.
+      eapply D_trans0; [exact DP|].
+      eapply D_trans0; [apply (D_any _ _ _ _ (anym_ev_ok e)), take_req_D|].
+      eapply D_trans0; [apply (D_any _ _ _ _ (anym_ev_ok e)), ctx_upd_D|].
+      (* the write loop writes the RST_STREAM itself *)
+      destruct (cl_can_write _) eqn:CW; cbn [fst]; [|apply D_refl].
+      apply (D_step _ _ (MWlReset id)); [exact CW | exact W | split; reflexivity |]. apply D_refl.
   - cbv zeta.
     assert (V : forall wr, (wr = true -> cl_can_write c = true /\ ((cs_n c pb =? 0)%Z && negb (cs_end c pb)) = false) ->
                            valid (MSend id wr) c).
